@@ -2218,6 +2218,16 @@ fn update_accumulator(
                 }
             }
         }
+        AggregateFunction::Avg if distinct => {
+            // AVG(DISTINCT): collect the values, averaged at finalization
+            if !input.is_null(row) {
+                let value = extract_group_value(input, row);
+                let set = state
+                    .distinct_set
+                    .get_or_insert_with(std::collections::HashSet::new);
+                set.insert(value);
+            }
+        }
         AggregateFunction::Avg => {
             if !input.is_null(row) {
                 state.count += 1;
@@ -2545,6 +2555,32 @@ fn build_agg_array(
     data_type: &DataType,
     distinct: bool,
 ) -> Result<ArrayRef> {
+    // AVG(DISTINCT): mean of the distinct non-NULL values, NULL when there are none
+    if distinct && func == AggregateFunction::Avg {
+        let mut builder = Float64Builder::with_capacity(num_groups);
+        for states in groups.values() {
+            let values: Vec<f64> = states[agg_idx]
+                .distinct_set
+                .as_ref()
+                .map(|s| {
+                    s.iter()
+                        .filter_map(|v| match v {
+                            GroupValue::Float64(x) => Some(x.into_inner()),
+                            GroupValue::Int64(x) => Some(*x as f64),
+                            _ => None,
+                        })
+                        .collect()
+                })
+                .unwrap_or_default();
+            if values.is_empty() {
+                builder.append_null();
+            } else {
+                builder.append_value(values.iter().sum::<f64>() / values.len() as f64);
+            }
+        }
+        return Ok(Arc::new(builder.finish()));
+    }
+
     // Handle SUM(DISTINCT) by computing sum from distinct_set
     if distinct && func == AggregateFunction::Sum {
         match data_type {
